@@ -257,7 +257,11 @@ fn oracle(c: &Case, st: &mut Stats) -> Result<(), String> {
     let a = match prog::make_arch(&c.program) {
         Ok(a) => a,
         Err(e) if e.starts_with("HARNESS") => return Err(e),
-        Err(_) => return Ok(()),
+        Err(_) => {
+            // the writer refused a valid program: that is C01's verdict, nothing to judge here - but it is counted
+            st.label("skipped: writer failed on the program (judged by C01)");
+            return Ok(());
+        }
     };
     if a.res.layers & 1 == 0 {
         return Ok(());
